@@ -71,6 +71,12 @@ def check_outputs(b, sol, hist, times, eps, viol, stats, *, label, compare_first
     stats["cond_pred_max"] = min(kP, 1e32)
     nk = (q, d, hmean)
     tol_m = max(tol_m, 100 * compare.cond_tol(compare.TOL_LOCAL_MEAN, kP))
+    # a tiny step (e.g. the first natural step after dt0 = 0.006) leaves rounding noise eps |f| / h^k in the k-th
+    # coefficient; a later step H weighs it with H^k / k!, i.e. eps (H / h)^k relative to its Nordsieck scale (observed:
+    # q = 6, H / h = 36, terminal mean 7e-7 with kappa 9e16, covariances 2e-13)
+    hs_all = [float(st["h"]) for st in hist[1:]]
+    tol_m = max(tol_m, 1e3 * compare.EPS * (max(hs_all) / min(hs_all)) ** q)
+    stats["tol_mean_max"] = max(stats.get("tol_mean_max", 0.0), tol_m)
     tol_c = (1e-4 if hi else compare.TOL_GLOBAL_COV) + (100 * compare.scale_tol(kap) if scaled else 0.0)
     tol_x = (1e-2 if hi else compare.TOL_GLOBAL_COV) + (100 * compare.scale_tol(kap) if scaled else 0.0)
     tol_c = max(tol_c, 100 * compare.cond_tol(compare.TOL_LOCAL_COV, kP, 1e4))
